@@ -57,17 +57,21 @@ namespace pika::concurrency::detail {
             //      The above order can be changed arbitrarily but
             //      the nature of execution will still remain the
             //      same.
+            PIKA_VERIF_POINT("sl.lock", this, 0, 0);
             do {
                 util::yield_while([this] { return is_locked(); },
                     "pika::concurrency::detail::spinlock::lock", false);
             } while (!acquire_lock());
+            PIKA_VERIF_POST("sl.acq", this, 0, 0);
 
             util::register_lock(this);
         }
 
         bool try_lock()
         {
+            PIKA_VERIF_POINT("sl.trylock", this, 0, 0);
             bool r = acquire_lock();    //-V707
+            PIKA_VERIF_POST("sl.try", this, r ? 1 : 0, 0);
 
             if (r)
             {
@@ -80,6 +84,7 @@ namespace pika::concurrency::detail {
 
         void unlock()
         {
+            PIKA_VERIF_POST("sl.rel", this, 0, 0);
             relinquish_lock();
             util::unregister_lock(this);
         }
